@@ -22,6 +22,10 @@ CLAIMED = {
   text="Deductive proof over the real parse_url/normalize_url/validate_url that, for every accepted URL, the components are those urlsplit reports (scheme gemini, lower-cased host, no non-empty user-info or fragment, port 0..65535 or 1965, path intact including ';', query), that they are well-formed, and that normalized equals the canonical RFC 3986 rendering of (hostname, port, path, query) - IPv6 literals bracketed, default port omitted - hence a function of the components only. Acceptance/same-meaning/idempotence of the normalised form then follow from the assumed urllib lemma LEMMA-CANON (urlsplit of a canonical rendering returns the components), which the thorough tier exercises against the real urllib (bounded).",
   note="Assumed: E7 urllib.parse model (pyvc/urlmodel.py: component charset facts, shape, authority split as in CPython's _hostinfo) and LEMMA-CANON; E6 UTF-8 codec lemmas; lower() uninterpreted (idempotent, length- and delimiter-preserving). Empty user-info ('@') and empty fragment ('#') are grey zones not asserted. The deductive part does not re-execute parse_url on the normalised string (solvers cannot do the IndexOf reasoning); that step is the assumed lemma.",
   technique="contract-based deductive verification: pyvc VCs over the real functions with an uninterpreted-function model of urllib; z3 + cvc5 (strings)", ref="6/C19"),
+ "C17": dict(
+  text="Deductive proof over the real ProxyHandler.__init__/_handle_async/handle, for every request path/query and every prefix/strip/upstream configuration with a non-empty upstream authority: exactly one fetch, with follow_redirects=False, of the URL upstream ++ map_path(prefix, strip, path) ++ [?query] (map_path from the statement: prefix removed only on a segment boundary, re-rooted at '/'); that URL is 'gemini://' ++ A ++ R with A the configured upstream's authority and R empty or starting with / ? #, so host and port are the upstream's; the upstream response object is returned unchanged and every exception of the fetch becomes 43; __init__ establishes the class invariant and refuses non-gemini upstreams.",
+  note="Assumed: E7 (host/port are functions of the authority), contract of GeminiClient.get (connects only to the URL's host/port: C16/C03), request.path starts with '/' without ?# (post of parse_url: C19); precondition that the configured upstream has a non-empty authority.",
+  technique="contract-based deductive verification: pyvc VCs over the real coroutine, string obligations by z3 + cvc5", ref="6/C17"),
 }
 NA_REASON = "check not built yet (work in progress; see DESIGN.md section 6 for the plan)"
 
